@@ -14,8 +14,10 @@ def run(ctx):
         "computed by the harness and bounded by the specification",
         "the clause 'the realised acceptance statistic after warm-up is close to the requested one' is statistical: it is reported and only "
         "asserted as mean in [delta - 0.25, 1] on the standard Gaussian after >= 300 warm-up transitions",
-        "when the first trial step of the start-up heuristic leaves the target's support the implementation halves first (not part of "
-        "Algorithm 4): only positivity and the power of two are asserted there",
+        "start value: the harness logs the log acceptance probability of one leapfrog step (its own integrator and log-density, f64) at "
+        "step sizes 1, eps0, eps0/2 and 2 eps0; DualAvg!StartValueOk decides from them whether eps0 is where Algorithm 4 stops (acceptance "
+        "crosses 1/2 next to eps0; undefined or zero density = acceptance 0). Where the unit step itself leaves the support either "
+        "direction of crossing is accepted (the implementation first looks for a finite trial point in its own way)",
     ]
     r = ctx.tlc("MC_DualAvg", workers=4)
     ctx.require_ok(r, "MC_DualAvg")
@@ -83,9 +85,20 @@ def run(ctx):
     bad[-1]["eps"]["v"] += 700
     okc, _, _ = ctx.validate_trace("Trace_DualAvg", ctx.write_ndjson("da_c.ndjson", bad))
     ctx.selftest("trace: step size changed after warm-up", not okc)
+    # binding self-test: a start value whose own trial point is outside the support (acceptance undefined) on the halving branch
+    hs = [e for e in evs if e["e"] == "heur" and e["a_one"]["k"] == "fin" and e["a_one"]["v"] < -45426 - 2000 and e["a_eps"]["k"] == "fin"]
+    if not hs:
+        raise vlib.ToolError("no start-up search that halved in the trace")
+    h = json.loads(json.dumps(hs[0]))
+    h["a_eps"] = {"k": "nan", "v": 0}
+    okh, _, _ = ctx.validate_trace("Trace_DualAvg", ctx.write_ndjson("da_h.ndjson", [h]))
+    ctx.selftest("trace: halving search that stopped at a trial point of undefined density", not okh)
+    ctx.cov["start_value_searches"] = {"events": sum(1 for e in evs if e["e"] == "heur"),
+                                       "unit_step_leaves_support": sum(1 for e in evs if e["e"] == "heur" and e["a_one"]["k"] != "fin"),
+                                       "a_trial_point_next_to_eps0_outside_support": sum(1 for e in evs if e["e"] == "heur" and "fin" != e["a_twice"]["k"])}
     ctx.cov["rule"] = ("MC_DualAvg: phase machine over 3 run() calls (adapt exactly while m <= n_discard, frozen afterwards, counter persists); traces: "
                        "warm-up lengths 0,1,3,50,300 (500, 2000 thorough), requested acceptance 0.55..0.95, repeated run() calls incl. RESUMED warm-ups (a later call adapts again), Gaussian/Rosenbrock/"
-                       "half-line targets, f32 and f64, plus the start-up heuristic through its wrapper and the per-chain start value / shrinkage point of 4- and 5-chain NUTS samplers (run and run_progress); non-trivial = adapting transitions")
+                       "half-line targets, f32 and f64, plus the start-up heuristic through its wrapper (Gaussians of scale 1e-5..3e4, quartic, half-line and Gamma targets of scale 1 and 6e-7 with momenta pointing out of the support) and the per-chain start value / shrinkage point of 4- and 5-chain NUTS samplers (run and run_progress); non-trivial = adapting transitions")
     ctx.cov["exhaustive"] = False
 
 
